@@ -164,6 +164,12 @@ def run(ctx):
         ctx.fail(f"ELEMENT-MASK: only {n5} element terms of the bus demand found")
     from rules import _lints
     _lints.both_switch_ends(ctx, "FUSE-BOTH-ENDS")
+    RT = "TYPE-LOOP"
+    ctx.rule(RT, "loops over a literal list of element types in the ppc builders and the topology graph builder contain no return / "
+                 "break: open switches, in-service masks and edges are handled for every listed type, not only up to the first hit")
+    _lints.type_loop_complete(ctx, RT, [f for mn in ("pandapower.build_branch", "pandapower.build_bus", "pandapower.build_gen", "pandapower.pd2ppc",
+                                                      "pandapower.auxiliary", "pandapower.topology.create_graph")
+                                        for f in ctx.repo.module(mn).functions.values()], minimum=5)
     _lints.dup_sweep(ctx, "DUP-OPERAND", ["pandapower.build_bus", "pandapower.pd2ppc", "pandapower.topology.create_graph",
                                          "pandapower.topology.graph_searches", "pandapower.results_bus"])
     # create_nxgraph adds the buses that no branch touched: all of them (out-of-service ones are removed afterwards)
@@ -195,6 +201,7 @@ def variants(repo):
     rb = "pandapower/results_bus.py"
     V = Variant
     return [
+        V("open-switch neglect stops after the first branch type", "pandapower/build_branch.py", in_function("_switch_branches", replace_once('            ppc["branch"][sw_branch_index, BR_STATUS] = 0\n            continue', '            ppc["branch"][sw_branch_index, BR_STATUS] = 0\n            return')), "TYPE-LOOP"),
         V("motor masked by the raw in_service column", "pandapower/build_bus.py", in_function("_get_motor_pq", replace_once('active = net._is_elements["motor"]', 'active = tab["in_service"].values.astype(bool)')), "ELEMENT-MASK"),
         V("bb switch mask tests bus twice", "pandapower/build_bus.py", in_function("create_bus_lookup", replace_once('np.isin(net["switch"]["element"].values, bus_is_idx))', 'np.isin(net["switch"]["bus"].values, bus_is_idx))')), "FUSE-BOTH-ENDS"),
         V("untouched buses counted against in-service buses", "pandapower/topology/create_graph.py", replace_once("if len(mg.nodes()) < len(net.bus.index):", "if len(mg.nodes()) < np.count_nonzero(net.bus.in_service.values):"), "ISOLATED-NODES"),
